@@ -258,6 +258,13 @@ def conclude(mod, prop, tier, seed, results, wall, write_evidence=True):
 
     lines = []
     rc = 0
+    if viols:
+        hist = {}
+        for r, v in viols:
+            h = hist.setdefault(v['kind'], [0, r['index'], v['msg']])
+            h[0] += 1
+        print('  violation kinds (raw, before known-finding matching): ' + '; '.join(
+            '%s x%d (e.g. case %d)' % (k, h[0], h[1]) for k, h in sorted(hist.items(), key=lambda kv: -kv[1][0])))
     os.makedirs(os.path.join(REPLAY, prop), exist_ok=True)
     reported = set()
     for r, v in new_viol:
